@@ -81,7 +81,12 @@ pub fn gen_req(r: &mut Rng, nonce: u64, versioned: bool) -> ErrReq {
                 *r.pick(&["client_error", "with_status", "bad_request", "internal", "unavail", "not_found", "literal", "literal"])
             };
             let status = if r.chance(3, 4) { *r.pick(&STATUSES) } else { r.range(0, 1100) as u16 };
-            let code = if r.chance(1, 2) { Some(format!("Code{}", r.range(0, 99))) } else { None };
+            // (an empty code is a code: it is not the same as none)
+            let code = match r.below(8) {
+                0 => Some(String::new()),
+                1..=3 => None,
+                _ => Some(format!("Code{}", r.range(0, 99))),
+            };
             let external = gen_msg(r);
             let secret = gen_token(r, nonce);
             let headers = if custom { vec![] } else { gen_headers(r) };
